@@ -3267,6 +3267,14 @@ impl Block {
                     return false;
                 }
             }
+        } else if let Some(fee_transaction_expected) = &cv.fee_transaction {
+            // the payouts the golden ticket of this block triggers are made by its fee transaction: a
+            // block that leaves it out keeps the fees of the blocks being paid in no output, treasury
+            // or graveyard
+            if !fee_transaction_expected.to.is_empty() {
+                error!("ERROR: block has a golden ticket but not the fee transaction that pays out");
+                return false;
+            }
         }
 
         //
